@@ -321,6 +321,7 @@ func profileFor(prop string) Profile {
 		p.Invalid = 35
 		p.NoSessionReq = 2
 		p.WideNames = true
+		p.Colliding = true
 	case "C13":
 		p.Gc = 12
 		p.GcOn = true
@@ -355,6 +356,7 @@ func profileFor(prop string) Profile {
 	case "C07":
 		p.Invalid = 25
 		p.NoSessionReq = 2
+		p.Colliding = true
 	}
 	if common.Thorough() {
 		p.Ops = 120
